@@ -299,3 +299,25 @@ Proof.
   split. { vm_compute; reflexivity. } split. { vm_compute; reflexivity. }
   intros H. apply covered_byb_complete in H. vm_compute in H. discriminate.
 Qed.
+
+(* ------------------------------------------------------------------ device T: translated helpers *)
+(* the hand model agrees with the definitions regenerated from the source on every run *)
+From VV Require gen.GenNumeric gen.GenWaits.
+
+Lemma gen_coords_intersect_eq sa ea sb eb :
+  GenWaits.coords_intersect (px sa) (py sa) (pz sa) (px ea) (py ea) (pz ea) (px sb) (py sb) (pz sb) (px eb) (py eb) (pz eb)
+  = coords_intersect sa ea sb eb.
+Proof.
+  unfold GenWaits.coords_intersect, coords_intersect. cbv zeta.
+  rewrite !Z.gtb_ltb. rewrite andb_assoc. reflexivity.
+Qed.
+
+Lemma gen_round_up_eq a b : GenNumeric.round_up a b = round_up a b.
+Proof. reflexivity. Qed.
+
+Lemma gen_round_up_divide_eq a b : GenNumeric.round_up_divide a b = round_up_divide a b.
+Proof. reflexivity. Qed.
+
+Lemma gen_overlaps_eq g a1 l1 a2 l2 :
+  ranges_overlap (g, a1, l1) (g, a2, l2) = GenNumeric.overlaps a1 (a1 + l1) a2 (a2 + l2).
+Proof. unfold ranges_overlap, GenNumeric.overlaps. rewrite Z.eqb_refl. reflexivity. Qed.
